@@ -114,6 +114,9 @@ class CCodeGenerator:
     def emit_alloca(self, typ):
         """Helper function to reserve some room on the stack."""
         size, alignment = self.data_layout(typ)
+        # Objects of size zero (empty struct, array without elements)
+        # still get a distinct address:
+        size = max(size, 1)
         name = "alloca"
         # Store here, to place them all at the beginning of the function:
         ir_var = ir.Alloc(name, size, alignment)
